@@ -379,8 +379,13 @@ func propC19canon(g *G, n int) {
 			for _, e := range []dec{g.smallIntDec(), g.decimal()} {
 				same("Decimal.PowWithMode", 0, e.String(), mode)
 			}
-			prec := sI64(int64(g.pick(45)))
-			same("Format", 0, sU64(uint64("eEfF"[g.pick(4)])), prec)
+			prec := sI64(int64(g.pick(46) - 1))
+			same("Format", 0, sU64(uint64("eEfFgG"[g.pick(6)])), prec)
+			// the text forms are shortest forms: identical for every encoding of a value
+			for _, op := range []string{"Decimal.String", "Decimal.MarshalText", "Decimal.MarshalJSON"} {
+				same(op, 0)
+			}
+			same("Decimal.Append", 0, sBytes([]byte("x=")), sBytes([]byte(g.formatSpec())))
 		}
 	}
 }
